@@ -197,6 +197,19 @@ def shard(col, shard_i, ngrammars, ninputs):
         elif gi % 8 == 5:
             g, texts = cut_scope_grammar(rng)
             col.count('family.cut-scope')
+        elif gi % 8 == 2:
+            # rules whose names start with underscores before an upper-case letter (token rules: no whitespace at entry) and bindings
+            # whose taken branch yields nothing (end of text, lookahead, cut, void): what a generated parser binds then
+            up = rng.choice(['_Num', '__Id', '_TOK', 'Tok', '_tok'])
+            nothing = rng.choice(['eof', ('look', False, ('tok', ';')), ('look', True, ('tok', 'q')), 'void', ('seq', ['cut']), ('opt', ('tok', 'q'))])
+            bind = rng.choice([('named', False, 'term', ('group', ('choice', [('tok', ';'), nothing]))),
+                               ('named', False, 'term', ('opt', ('tok', ';'))),
+                               ('over', False, ('group', ('choice', [('tok', ';'), nothing]))),
+                               ('named', True, 'terms', ('group', ('choice', [('tok', ';'), nothing])))])
+            g = {'rules': [('start', [], ('seq', [('tok', '-'), ('named', False, 'v', ('call', up)), ('tok', 'c'), bind])),
+                           (up, [], rng.choice([('pat', r'[a-z0-9]+'), ('seq', [('pat', r'\d+')])]))], 'directives': {}, 'keywords': []}
+            texts = ['- 1 c', '-1 c', '-1 c;', '- 1 c ;', '-x c', '-1c', '-1 c q', ' -1 c'][:max(6, ninputs)]
+            col.count('family.underscore-upper+empty-binding')
         elif gi % 8 == 6:
             # keywords checked by a @name rule, with @@ignorecase given as a directive and overridden (or not) at parse time
             from props.c11 import gen_kw_grammar
